@@ -190,7 +190,70 @@ def check_measureless(case):
     return Result(nontrivial=len(doc['rows']) > 2, evals=evals, classes=['measureless', f'{len(doc["types"])} spines'], sample=text)
 
 
+def check_real(case):
+    """a sample score of the repository: its single-measure excerpts partition the data lines of the whole export, ranges give
+    the lines between their barlines, iteration yields 1..M, illegal shapes are rejected (**kern spines by type or by id)"""
+    from .. import realscores as RS
+    try:
+        kdoc, errs = kp.load(RS.path(case['real']))
+    except Exception:  # noqa
+        return Result(classes=['real-score-not-importable'])
+    if errs:
+        return Result(classes=['real-score-with-import-errors'])
+    types = kp.spine_types(kdoc)
+    if '**kern' not in types:
+        return Result(classes=['real-score-without-kern'])
+    kw = {'spine_types': ['**kern']}
+    if case.get('by_ids'):
+        kw = {'spine_ids': [k for k, t in enumerate(types) if t == '**kern']}
+    full_text = K.dumps(kdoc, **kw)
+    lines = [l for l in full_text.split('\n') if l]
+    B = RS.measure_lines(lines)
+    M = len(kdoc.measure_start_tree_stages)
+    if len(B) != M or M == 0 or M > 60:
+        return Result(classes=['real-score-numbering-not-text-level' if M <= 60 else 'real-score-too-long-for-quick'])
+    if list(kdoc) != list(range(1, M + 1)) or kdoc.measures_count() != M:
+        raise Bad('iteration', f'{case["real"]}: list(doc) = {list(kdoc)[:5]}..., measures_count() = {kdoc.measures_count()}, M = {M}')
+
+    def data(ls):
+        return [l for l in ls if l[0] not in '*=' and not l.startswith('!!')]
+    evals = 0
+    singles = []
+    for a in range(1, M + 1):
+        ex = K.dumps(kdoc, what=f'{case["real"]}: from_measure={a},to_measure={a}', from_measure=a, to_measure=a, **kw)
+        evals += 1
+        got = data([l for l in ex.split('\n') if l])
+        exp = data(lines[B[a - 1]:(B[a] if a < M else len(lines))])
+        if got != exp:
+            raise Bad('range-lines', f'{case["real"]} ({K._kwrepr(kw)}): measure {a} of {M} exports the data lines {got[:4]}..., the whole export has {exp[:4]}... there')
+        singles += got
+    if singles != data(lines[B[0]:]):
+        raise Bad('partition', f'{case["real"]}: the single-measure exports do not partition the data lines of the whole export')
+    for a, b in RS.ranges(case, M):
+        ex = K.dumps(kdoc, from_measure=a, to_measure=b, **kw)
+        evals += 1
+        got = data([l for l in ex.split('\n') if l])
+        exp = data(lines[B[a - 1]:(B[b] if b < M else len(lines))])
+        if got != exp:
+            raise Bad('range-lines', f'{case["real"]} ({K._kwrepr(kw)}): range {a}..{b} of {M} exports {len(got)} data lines, the whole export has {len(exp)} there')
+    for bad_kw in ({'from_measure': -1}, {'to_measure': M + 1}, {'from_measure': 2, 'to_measure': 1}, {'from_measure': M + 1, 'to_measure': M + 1}):
+        evals += 1
+        try:
+            kp.dumps(kdoc, **bad_kw, **kw)
+        except ValueError:
+            continue
+        except Exception as e:  # noqa
+            raise Bad('wrong-exception', f'{case["real"]}: {bad_kw} raised {type(e).__name__}: {e}, expected ValueError')
+        raise Bad('not-rejected', f'{case["real"]}: {bad_kw} (M={M}) was accepted')
+    return Result(nontrivial=M >= 3, evals=evals, classes=['real-score', f'M={min(M, 6)}{"+" if M > 6 else ""}'], sample={'file': case['real'], 'M': M},
+                  key=['real', case['real'], case.get('by_ids'), case['raw']])
+
+
 def run(ctx):
+    from .. import realscores as RS
+    rc = RS.cases(max_bytes=20000, nranges=5)
+    if rc is not None:
+        ctx.run_hypothesis(rc, check_real, max_examples=max(3, (24 if ctx.quick else 400) // ctx.nshards), salt=9, label='real-scores')
     n = 150 if ctx.quick else 1200
     ctx.run_hypothesis(measureless_cases(), check_measureless, max_examples=20 if ctx.quick else 200, salt=2, label='measureless')
     ctx.run_hypothesis(cases(), check, max_examples=n, label='measures')
@@ -199,6 +262,8 @@ def run(ctx):
 
 
 def replay(case):
+    if 'real' in case:
+        return check_real(case)
     if case['doc'].get('profile') == 'measureless':
         return check_measureless(case)
     return check(case)
